@@ -1,5 +1,6 @@
 import SqlObjVerif.Lemmas.Like
 import SqlObjVerif.Lemmas.LexXLike
+import SqlObjVerif.Lemmas.LexXMore
 /-!
 # C17 — startswith / endswith / contains match their argument literally
 
@@ -158,6 +159,61 @@ theorem C17_translated_wrapper_clause_eq_model (P : Ext) (n : Nat) (hup : UpperO
     ∃ v, run (world P (n + 2)) prog [e, .str a] = .ret v ∧
       sqlreprX (world P (n + 6)) v (.str (dbName d)) = .ret (.str (Like.likeClause d op x a)) :=
   wrapper_sqlrepr P n hup d op prog hw e x a he
+
+/-- the helper methods by the hand model's `LikeOp`: the generic `SQLExpression.startswith / endswith / contains` … -/
+def genericHelperOf (op : Lex.LikeOp) : Option Block :=
+  if op = Lex.Extracted.startswithOp then some Extracted.Expr_startswith
+  else if op = Lex.Extracted.endswithOp then some Extracted.Expr_endswith
+  else if op = Lex.Extracted.containsOp then some Extracted.Expr_contains
+  else Option.none
+
+/-- … and the column helpers `SQLObjectField.startswith / endswith / contains` -/
+def fieldHelperOf (op : Lex.LikeOp) : Option Block :=
+  if op = Lex.Extracted.startswithOp then some Extracted.Field_startswith
+  else if op = Lex.Extracted.endswithOp then some Extracted.Field_endswith
+  else if op = Lex.Extracted.containsOp then some Extracted.Field_contains
+  else Option.none
+
+/-- the generic helpers `SQLExpression.startswith / endswith / contains(self, a)` as translated build, for ANY
+    receiver, exactly the object of the extracted wrapper constants — escape character included — i.e. the same
+    object as `STARTSWITH / ENDSWITH / CONTAINSSTRING(self, a)` -/
+theorem C17_translated_generic_helpers_eq_model (P : Ext) (n : Nat) (op : Lex.LikeOp) (prog : Block)
+    (hg : genericHelperOf op = some prog) (self : Val) (a : Lex.Str) :
+    run (world P (n + 3)) prog [self, .str a] = .ret (wrapperObj op self a) := by
+  unfold genericHelperOf at hg
+  split at hg
+  · cases hg; rename_i h; subst h; exact expr_startswith_run P n self a
+  · split at hg
+    · cases hg; rename_i h; subst h; exact expr_endswith_run P n self a
+    · split at hg
+      · cases hg; rename_i h; subst h; exact expr_contains_run P n self a
+      · cases hg
+
+/-- the column helpers as translated: `s = self._from_python(s)` (an interface call returning the string `a'`), then
+    the SAME object as the generic helper builds for `a'` -/
+theorem C17_translated_field_helpers_eq_generic (P : Ext) (n : Nat) (op : Lex.LikeOp) (fprog gprog : Block)
+    (hf : fieldHelperOf op = some fprog) (hg : genericHelperOf op = some gprog) (c : String)
+    (fs : List (String × Val)) (a a' : Lex.Str)
+    (hfp : xCm P (world P (n + 2)) (.obj c fs) "_from_python" [.str a] = .ok (.str a')) :
+    run (world P (n + 3)) fprog [.obj c fs, .str a] = run (world P (n + 3)) gprog [.obj c fs, .str a'] := by
+  rw [C17_translated_generic_helpers_eq_model P n op gprog hg]
+  unfold fieldHelperOf at hf
+  split at hf
+  · cases hf; rename_i h; subst h; exact field_startswith_run P n c fs a a' hfp
+  · split at hf
+    · cases hf; rename_i h; subst h; exact field_endswith_run P n c fs a a' hfp
+    · split at hf
+      · cases hf; rename_i h; subst h; exact field_contains_run P n c fs a a' hfp
+      · cases hf
+
+/-- end to end for the generic helpers: helper call, then the translated `sqlrepr` = the model's clause -/
+theorem C17_translated_generic_helper_clause_eq_model (P : Ext) (n : Nat) (hup : UpperOK P.upper) (d : Lex.Dialect)
+    (op : Lex.LikeOp) (prog : Block) (hg : genericHelperOf op = some prog) (self : Val) (x a : Lex.Str)
+    (he : run (world P (n + 4)) Extracted.sqlrepr [self, .str (dbName d)] = .ret (.str x)) :
+    ∃ v, run (world P (n + 3)) prog [self, .str a] = .ret v ∧
+      sqlreprX (world P (n + 6)) v (.str (dbName d)) = .ret (.str (Like.likeClause d op x a)) :=
+  ⟨_, C17_translated_generic_helpers_eq_model P n op prog hg self a,
+    sqlrepr_like P n hup d self x a op.pre op.post op.esc he⟩
 
 /-- decode one literal with the reference lexer (nothing may follow) -/
 def decodeLit (d : Lex.Dialect) (t : Lex.Str) : Option Lex.Str :=
